@@ -110,21 +110,26 @@ def exits(ctx, write_guarded):
                 names.add("?" if e == TOP else shape_s(e))
         src = None
         if rk[0] == "prop":
-            res = rk[1][2][0]
-            x = look(res[1]) if res[0] == "residual" else None
-            while x is not None and is_call(x, "map_err", "and_then"):
-                inner = look(x[2][0])
-                if is_call(x, "and_then") and is_call(inner, "map_err") and is_call(look(inner[2][0]), "accept"):
-                    x = look(inner[2][0])
+            # the call whose error is propagated; a helper traversed inline propagates its callee's
+            # error with a `?` of its own, so residuals can be nested
+            x = look(rk[1])
+            while True:
+                if is_call(x, "from_residual") and x[2]:
+                    x = look(x[2][0])
+                elif x[0] == "residual":
+                    x = look(x[1])
+                elif is_call(x, "branch") and x[2]:
+                    x = look(x[2][0])
+                elif is_call(x, "map_err", "and_then") and x[2]:
+                    x = look(x[2][0])
+                else:
                     break
-                x = inner
             src = x
         cause = None
         if names == {"ShutdownEvent"}:
             cause = "shutdown"
-        elif src is not None and is_call(src, "accept"):
+        elif src is not None and (is_call(src, "accept") or (is_call(src, "std::io::Write::write") and any(is_call(x, "accept") for x in subterms(src) if isinstance(x, tuple)))):
             cause = "accept/refusal-write I/O error"
-            ok = names <= {"IOError(_)"}
         elif src is not None and is_call(src, S + "epoll_mod"):
             cause = "epoll_ctl error"
         elif src is not None and is_call(src, CC + "read"):
@@ -209,7 +214,8 @@ def pairing(ctx, rule):
                         if e[0] == "call" and e[1] == bb and is_connections(e[4][2][0]):
                             removers.append((f.name, bb, last_seg(p), e))
     sites = {(r[0], r[1], r[2]) for r in removers}
-    ctx.ob(rule, "remove|only-retain-in-requests", sites and all(s[0] == srv.REQUESTS and s[2] == "retain" for s in sites), "removals from the connection map: %s" % sorted(sites))
+    from .util import roots_of
+    ctx.ob(rule, "remove|only-retain-in-requests", sites and all((roots_of(facts, s[0]) or {s[0]}) == {srv.REQUESTS} and s[2] == "retain" for s in sites), "removals from the connection map: %s" % sorted(sites))
     for (fname, bb, kind, e) in removers[:1]:
         clo = look(e[4][2][1])
         if clo[0] != "closure":
@@ -217,8 +223,16 @@ def pairing(ctx, rule):
             continue
         fc, lc = leaves(ctx, clo[1])
         for lf in lc:
-            keep = look(lf.ret())
             done = conn.atom_truth(lf, lambda t: is_call(t, CC + "is_done"))
+            keep = look(lf.ret())
+            # `!done` / `!conn.is_done()` written out instead of two literal returns
+            neg = False
+            while keep[0] == "un" and keep[1] == "Not":
+                keep, neg = look(keep[2]), not neg
+            if is_call(keep, CC + "is_done") and done is not None:
+                keep = ("const", done)
+            if keep[0] == "const" and isinstance(keep[1], bool) and neg:
+                keep = ("const", not keep[1])
             dels = calls(lf, S + "epoll_del")
             if keep == ("const", False):
                 ok = done is True and len(dels) == 1 and look(dels[0][4][2][1]) in (("deref", ("arg", 2)), ("arg", 2))
@@ -253,19 +267,21 @@ def is_connections(t):
 def hangup(ctx, rule):
     fn, lv = leaves(ctx, srv.REQUESTS)
     n = 0
+    covered = set()
     for lf in lv:
         fl = flags_on_path(lf)
         hang = any(fl.get(f) for f in (srv.EV_ERR, srv.EV_HUP, srv.EV_RDHUP))
         io = calls(lf, CC + "read", CC + "write")
         if hang:
             n += 1
+            covered |= {f for f in (srv.EV_ERR, srv.EV_HUP, srv.EV_RDHUP) if fl.get(f)}
             clr = calls(lf, CC + "clear_write_buffer")
             closed = [e for e in lf.events if e[0] == "assign" and e[5] is not None and srv.is_state_place(e[5]) and srv.state_const(ctx.facts, e[4]) == "Closed"]
             ctx.ob(rule, "hangup|clear+closed|flags=%s" % sorted(k for k, v in fl.items() if v), len(clr) == 1 and len(closed) == 1 and not io, "ERR/HUP/RDHUP: write buffer cleared, state := Closed, no read/write (clear=%d closed=%d io=%d)" % (len(clr), len(closed), len(io)), fn.loc(lf.bb))
         elif io:
             tested = all(fl.get(f) is False for f in (srv.EV_ERR, srv.EV_HUP, srv.EV_RDHUP))
             ctx.ob(rule, "io|only-without-hangup|%s" % io[0][3].split("::")[-1], tested, "read()/write() happen only after ERR, HUP and RDHUP were all tested and absent", fn.loc(io[0][1]))
-    ctx.ob(rule, "hangup|floor", n >= 3, "%d hang-up paths inspected (floor 3)" % n)
+    ctx.ob(rule, "hangup|floor", n >= 1 and covered == {srv.EV_ERR, srv.EV_HUP, srv.EV_RDHUP}, "%d hang-up path(s) inspected; flags with a closing path: %s (ERROR, HANG_UP and READ_HANG_UP all needed)" % (n, sorted("0x%x" % f for f in covered)))
     # clear_write_buffer really clears both
     fcw, lw = leaves(ctx, conn.P + "clear_write_buffer")
     for lf in lw:
@@ -295,10 +311,11 @@ def closed_enqueue(ctx, rule):
             ctx.ob(rule, "closed|dropped", True, "for a Closed connection the response is dropped", fn.loc(lf.bb))
     ctx.ob(rule, "enqueue|floor", n >= 1, "%d enqueue path(s) inspected" % n)
     # nobody else reaches HttpConnection::enqueue_response on a ClientConnection except read() (server-generated replies)
+    from .util import roots_of
     callers = set()
     for f in facts.fns.values():
         for bb, t in f.calls_to(conn.P + "enqueue_response"):
-            callers.add(f.name)
+            callers |= roots_of(facts, f.name) or {f.name}
     ctx.ob(rule, "enqueue|callers", callers <= {CC + "enqueue_response", CC + "read"}, "callers of HttpConnection::enqueue_response: %s" % sorted(callers))
 
 
@@ -310,6 +327,19 @@ def nonblocking(ctx, rule):
     n = 0
     for lf in lv:
         thens = [e for e in lf.events if e[0] == "call" and last_seg(e[3]) == "and_then"]
+        news = [e for e in lf.events if e[0] == "call" and e[3] == conn.P + "new"]
+        if not thens and news:
+            # written out in sequence: the stream given to HttpConnection::new is the accepted one and
+            # set_nonblocking(true) succeeded on it earlier on this path
+            from .util import canon, payload_of, result_outcome
+            n += 1
+            for e in news:
+                stream = canon(e[4][2][0])
+                i = lf.events.index(e)
+                setters = [x for x in lf.events[:i] if x[0] == "call" and x[3] == "std::os::unix::net::UnixStream::set_nonblocking" and canon(x[4][2][0]) == stream and look(x[4][2][1]) == ("const", True) and result_outcome(lf, x[4]) == "ok"]
+                from_accept = any(isinstance(st_, tuple) and st_ and is_call(st_, "accept") for st_ in subterms(stream))
+                ctx.ob(rule, "accepted-stream-nonblocking", bool(setters) and from_accept, "the accepted stream passes through a successful set_nonblocking(true) before HttpConnection::new wraps it (in sequence; %d setter call(s) on it)" % len(setters), fn.loc(e[1]))
+            continue
         if not thens:
             continue
         n += 1
